@@ -165,6 +165,8 @@ def r15_2(ctx, prog, crate):
                             lab |= {z.label() for z in cap[0].prov.op_src(cap[1]) if z.kind in ("call", "param")}
                 ctx.check("call:benchmark::options::BenchOptions::overwrite" in lab and "param:self.bench_options" in lab, "R15.2",
                           ["run_bench_entry", "context-gets-merged-options"], "BenchContext::new receives %s" % sorted(lab), cc.line())
+    if b is not None:
+        effective_options_always_merged(ctx, prog, crate, b, "R15.2")
     b = prog.body("divan::Divan::run_tree", crate)
     if ctx.anchor("R15.2", "run_tree", 1 if b else 0, 1):
         ctx.saw(b)
@@ -190,6 +192,56 @@ def r15_2(ctx, prog, crate):
                           "`%s` does not receive the merged options" % c.callee, c.line())
     # EntryTree::bench_options of a node = its own entry/group meta options
     return
+
+
+def effective_options_always_merged(ctx, prog, crate, b, rule):
+    """Every value that can reach the *effective options* of a leaf (the options handed to BenchContext::new and the one
+    whose `.ignore` decides should_ignore) is either the runner's own bench_options - only when the entry has no options -
+    or the result of self.bench_options.overwrite(entry_options).  Entry options that bypass the merge lose every run-time
+    override."""
+    from lib.facts import origins
+    from lib import tables as _t
+    uses = []
+    for c in b.live_calls():
+        if c.callee == "divan::Divan::should_ignore":
+            d = direct_place(b, c.args[1])
+            if d and d[0] == "call" and d[1].callee.endswith("unwrap_or_default"):
+                uses.append(("should_ignore", d[1].args[0], c))
+    for x in prog.closure_tree(b):
+        for cc in x.live_calls():
+            if cc.callee == "benchmark::BenchContext::new":
+                for y in x.prov.op_src(cc.args[1]):
+                    if y.kind == "upvar":
+                        for cn in x.captures or []:
+                            if cn.lstrip("*") == y.a.lstrip("*"):
+                                cap = prog.capture_operand(x, cn)
+                                if cap and cap[0].path == b.path:
+                                    uses.append(("BenchContext::new", cap[1], cc))
+    if not ctx.anchor(rule, "uses of the effective options in run_bench_entry", uses, 2):
+        return
+    entry_params = [l for l in range(1, b.arg_count + 1) if "BenchOptions" in b.local_ty(l)]
+    none_arm = None
+    for bi, t, base in _t.discr_switches(b):
+        if base in entry_params:
+            arms, otherwise = _t.arm_targets(t)
+            none_arm = arms.get(0, otherwise)
+    for what, op, c in uses:
+        for o in origins(b, op):
+            if o[0] == "call":
+                ok = o[1].callee == "benchmark::options::BenchOptions::overwrite"
+                desc = "call " + o[1].callee
+            elif o[0] == "place":
+                runner = o[1] == 1 and tuple(o[2])[:1] == ("bench_options",)
+                ok = runner and none_arm is not None and o[3] is not None and b.dominates(none_arm, o[3])
+                desc = "%s.%s" % (b.param_name(o[1]), ".".join(map(str, o[2])))
+                if runner and not ok:
+                    desc += " (not confined to the entry-has-no-options arm)"
+            else:
+                ok = False
+                desc = str(o[0])
+            ctx.check(ok, rule, [b.path, what, "effective-options-origin", desc],
+                      "the effective options used by %s can be `%s`: the runner's options and the entry's options are not merged with "
+                      "overwrite() on that path" % (what, desc), c.line(), detail={"use": what, "origin": desc})
 
 
 def cli_tables(ctx, prog, crate):
